@@ -123,7 +123,7 @@ async fn run_scenario(sc: &Value, rng: &mut Rng) -> Value {
     c.start();
 
     // wait until both endpoints are in a terminal state (the deadline override bounds this)
-    let hard = Duration::from_millis(deadline as u64 + 2500);
+    let hard = Duration::from_millis(deadline as u64 + 12000);
     let mut t_conn = json!({"C": null, "S": null});
     let mut first_conn: Option<Instant> = None;
     loop {
@@ -276,7 +276,7 @@ async fn run_ref_scenario(sc: &Value, rng: &mut Rng, ref_is_server: bool) -> Val
     };
     let t_ref = t0.elapsed().as_millis() as u64;
     // wait for the rustrtc endpoint to settle
-    let hard = Duration::from_millis(deadline as u64 + 2500);
+    let hard = Duration::from_millis(deadline as u64 + 12000);
     while !is_terminal(&ep.dtls.get_state()) && t0.elapsed() < hard {
         tokio::time::sleep(Duration::from_millis(2)).await;
     }
